@@ -104,8 +104,7 @@ brk("c16-tlm-entry-size-wrong", ["C16"],
     [("jpeg2000/encoder.go", "uint16(4+len(entries)*6)", "uint16(4+len(entries)*4)")],
     "BYTES", "writeTLM")
 brk("c16-huffman-fast-path-bypasses-stuffing", ["C16"],
-    [("jpeg/standard/huffman_encoder.go", "func (e *HuffmanEncoder) Flush() error {", "// WriteRaw appends pre-aligned bytes (fast path).\nfunc (e *HuffmanEncoder) WriteRaw(p []byte) error {\n	_, err := e.w.Write(p)\n	return err\n}\n\nfunc (e *HuffmanEncoder) Flush() error {"),
-     ("jpeg/lossless/encoder.go", "	if err := writer.WriteMarker(standard.MarkerEOI); err != nil {", "	_ = (*standard.HuffmanEncoder).WriteRaw\n	if err := writer.WriteMarker(standard.MarkerEOI); err != nil {")],
+    [("jpeg/standard/huffman_encoder.go", "	if n == 0 {\n		return nil\n	}\n\n	e.bits = (e.bits << uint(n))", "	if n == 0 {\n		return nil\n	}\n	if n == 8 && e.nBits == 0 {\n		// byte-aligned fast path\n		_, err := e.w.Write([]byte{byte(bits)})\n		return err\n	}\n\n	e.bits = (e.bits << uint(n))")],
     "OWNER-SINK", "HuffmanEncoder")
 brk("c16-lossless-return-before-eoi", ["C16"],
     [("jpeg/lossless/encoder.go", "	// Write EOI\n	if err := writer.WriteMarker(standard.MarkerEOI); err != nil {", "	if len(samples) == 0 {\n		return buf.Bytes(), nil\n	}\n	// Write EOI\n	if err := writer.WriteMarker(standard.MarkerEOI); err != nil {")],
@@ -286,3 +285,25 @@ brk_on("R2-5", "on-R2-5-lossless-field-negated", ["C06"],
 brk_on("R2-5", "on-R2-5-lossless-field-reassigned-in-method", ["C06"],
     [("jpeg2000/htj2k/codec.go", "	encParams.Lossless = c.lossless\n", "	if parameters != nil {\n		c.lossless = false\n	}\n	encParams.Lossless = c.lossless\n")],
     "FLOWS-LOSSLESS", "htj2k")
+
+# round 3 (deeper restructurings)
+refactor("R5-1", ["C08", "C09"])
+refactor("R5-2", ["C08", "C09"])
+refactor("R5-3", ["C04", "C19", "C08"])
+refactor("R5-4", ["C08", "C10"])
+refactor("R5-5", ["C08", "C09"])
+refactor("R6-1", ["C08", "C10", "C15", "C18"])
+refactor("R6-2", ["C05", "C06", "C10", "C18"])
+refactor("R6-3", ["C08", "C10"])
+refactor("R6-4", ["C16", "C17", "C18", "C19"])
+refactor("R6-5", ["C16", "C18", "C08"])
+refactor("R7-1", ["C16", "C17", "C19"])
+refactor("R7-2", ["C04", "C16", "C17", "C19"])
+refactor("R7-3", ["C10", "C17", "C06"])
+refactor("R7-4", ["C16", "C17", "C18"])
+refactor("R7-5", ["C16", "C17"])
+refactor("R8-1", ["C04", "C19"])
+refactor("R8-2", ["C04", "C08", "C09"])
+refactor("R8-3", ["C05", "C06", "C10", "C17"])
+refactor("R8-4", ["C16", "C17", "C19"])
+refactor("R8-5", ["C04", "C18", "C19"])
